@@ -256,6 +256,12 @@ def gen_retry(tier, rng):
                         yield send_case(client_cfg(retry=other), single(), atts, call=True, tag='retry', req_retry=st)
                         yield send_case(client_cfg(retry=st), single(), atts, call=True, tag='retry', req_retry=None)
                         yield send_case(client_cfg(), single(), atts, call=True, tag='retry', req_retry=st)
+                        # ... for batches (client.batch.send(..., _retry_strategy=...)) as well
+                        b2 = batch([_req_spec('a', None, 1), _req_spec('b', None, 2)])
+                        batts = [BATCH_OUTCOMES[k]() for k in seq]
+                        yield send_case(client_cfg(retry=other), b2, batts, tag='retry', req_retry=st)
+                        yield send_case(client_cfg(retry=st), b2, batts, tag='retry', req_retry=None)
+                        yield send_case(client_cfg(), b2, batts, tag='retry', req_retry=st)
 
 
 def gen_sessions(tier, rng):
